@@ -131,15 +131,23 @@ def _worker_init(modname: str) -> None:
         _MODULE.worker_init()
 
 
+_HISTORY = []   # indices of the units this worker process has executed so far, in order
+
+
 def _worker_run(arg):
     idx, unit = arg
     acc = Acc()
+    before = list(_HISTORY)
+    _HISTORY.append(idx)
     try:
         _MODULE.run_unit(unit, acc)
     except Exception:  # a crash of the harness itself (not of the code under test)
         return idx, None, traceback.format_exc()
     for v in acc.violations:  # remember the unit: a history-dependent violation is replayed through its whole unit
         v["unit"] = unit
+        # ... and the units this worker ran before it: state left in the library by EARLIER units (a module- or class-level cache) is
+        # replayed through the worker's whole unit sequence
+        v["history_idx"] = before + [idx]
     return idx, acc, None
 
 
